@@ -256,7 +256,7 @@ def one_round(res, pid, seed, n, rnd):
 def run(ctx):
     pid, tier, seed = ctx['pid'], ctx['tier'], ctx['seed']
     res = C.Result()
-    rounds, n = (1, 300) if tier == 'quick' else (6, 600)
+    rounds, n = (1, 200) if tier == 'quick' else (6, 600)
     for rnd in range(rounds):
         one_round(res, pid, seed * 1000 + rnd, n, rnd)
     res.rule = ('random decorator stacks of depth 0..3 (transform / delay with generator on-off and AllowNoDelay on-off / Prometheus metrics, incl. the same metrics decorator twice or three times and both '
